@@ -1,1 +1,3 @@
-import ChibiVerif.Model.HashMap
+-- root of the library: imports every Props/Findings module so that `lake build` checks everything
+import ChibiVerif.Props.C17
+import ChibiVerif.Findings.C17
